@@ -135,6 +135,11 @@ parseSegments:
 		return nil, fmt.Errorf("no metadata found")
 	}
 
+	// An ICC profile already found to be damaged stays reported as damaged
+	if _, iccErr := md.ICCProfileData(); iccErr != nil {
+		return md, nil
+	}
+
 	// Incomplete or missing ICC profile
 	if len(iccProfileChunks) != iccProfileChunksExtracted {
 		_, iccErr := md.ICCProfileData()
